@@ -309,6 +309,7 @@ def units(tier, seed):
         us.append({'kind': 'pow', 'ekind': kk, 'tier': tier, 'seed': seed})
     us.append({'kind': 'alias', 'tier': tier, 'seed': seed})
     us.append({'kind': 'alias_binary', 'tier': tier, 'seed': seed})
+    us.append({'kind': 'highD', 'tier': tier, 'seed': seed})
     return us
 
 
@@ -467,8 +468,37 @@ def run_alias_binary(u, out):
                         out['fails'].append({'sig': 'C02|%s|binary-aliased|%s|operand modified' % (opn, form), 'case': case, 'detail': {}})
 
 
+def run_highD(u, out):
+    """degrees far above the test-suite's (kernels may switch algorithm with D): exact Cauchy product / quotient"""
+    for D in ([16, 17, 33] if u['tier'] == 'quick' else [16, 17, 24, 33, 40]):
+        for opn in ('mul', 'div', 'add', 'sub'):
+            for shape in [(), (2,)]:
+                P = 2
+                n = D * P * int(np.prod(shape, dtype=int))
+                X = np.array([[1.0, -0.5, 0.25, 0.5, -1.0, 0.125][(3 * i + i // 7) % 6] for i in range(n)]).reshape((D, P) + shape)
+                Y = np.array([[0.5, 1.0, -0.25, -0.5, 0.125, 1.0][(5 * i + i // 5) % 6] for i in range(n)]).reshape((D, P) + shape)
+                if opn == 'div':
+                    Y[0] = 2.0 ** ((np.arange(Y[0].size) % 3) - 1).reshape(Y[0].shape)
+                case = {'kind': 'highD', 'op': opn, 'D': D, 'shape': list(shape), 'tier': u['tier']}
+                out['evals'] += 1
+                out['nontrivial'] += 1
+                r, m, bshape, cx = reference(opn, UTPM(X.copy()), UTPM(Y.copy()), D, P)
+                for form in ('binary', 'inplace'):
+                    try:
+                        res = OPS[opn](UTPM(X.copy()), UTPM(Y.copy())) if form == 'binary' else IOPS[opn](UTPM(X.copy()), UTPM(Y.copy()))
+                    except Exception as e:
+                        out['fails'].append({'sig': 'C02|%s|%s|high degree|raises' % (opn, form), 'case': dict(case, form=form), 'detail': {'error': str(e)[:200]}})
+                        continue
+                    d = compare(res, r, m, bshape, cx, opn != 'div', D, P)
+                    if d is not None:
+                        out['fails'].append({'sig': 'C02|%s|%s|high degree D>=16|%s' % (opn, form, d['reason'].split(' (')[0]), 'case': dict(case, form=form), 'detail': d})
+
+
 def run_unit(u):
     out = {'evals': 0, 'nontrivial': 0, 'fails': [], 'samples': [], 'counters': {}}
+    if u['kind'] == 'highD':
+        run_highD(u, out)
+        return out
     if u['kind'] == 'alias_binary':
         run_alias_binary(u, out)
         return out
@@ -504,6 +534,9 @@ def replay(case):
         run_pow({'ekind': case['ekind'], 'tier': case.get('tier', 'quick')}, out)
         return [f for f in out['fails'] if f['case']['k'] == case['k'] and f['case']['D'] == case['D'] and f['case']['P'] == case['P']
                 and f['case']['shape'] == case['shape'] and f['case']['cplx'] == case['cplx']]
+    if case.get('kind') == 'highD':
+        run_highD({'tier': case.get('tier', 'quick')}, out)
+        return [f for f in out['fails'] if all(f['case'].get(k) == case.get(k) for k in ('op', 'D', 'shape', 'form'))]
     if case.get('kind') == 'alias_binary':
         run_alias_binary({'tier': case.get('tier', 'quick')}, out)
         return [f for f in out['fails'] if all(f['case'][k] == case[k] for k in ('op', 'form', 'D', 'P', 'cplx'))]
